@@ -20,6 +20,7 @@ type c19Op struct {
 }
 
 type c19Scenario struct {
+	Huge     bool    `json:"beyond_what_a_duration_holds,omitempty"`
 	Base     int     `json:"base_ms"`
 	Factor   int     `json:"factor"`
 	Cap      int     `json:"cap_ms"`
@@ -206,6 +207,17 @@ func runC19(e *Engine, g G, o RunOpt) RunInfo {
 		}
 	}
 	sc.NoJitter = g.Bool("nojitter")
+	// "every positive base, factor and cap": also values whose delay no time.Duration can hold
+	// (more than about 292 years, 2^63 ns). Only the per-attempt query is used with them - no
+	// clock can wait that long - and only the bounds are asserted.
+	sc.Huge = !sc.Defaults && g.Pct("huge", 6)
+	if sc.Huge {
+		big1 := []int{1 << 44, 1 << 53, 1 << 62, 1<<63 - 1, 9223372036854, 9223372036855}
+		sc.Cap = big1[g.N("hugecap", len(big1))]
+		if g.Bool("hugebase") {
+			sc.Base = big1[g.N("hugebaseval", len(big1))]
+		}
+	}
 	nops := g.Range("nops", 1, 40)
 	if g.Pct("long", 10) {
 		nops = g.Range("nopslong", 200, 2000)
@@ -229,13 +241,20 @@ func runC19(e *Engine, g G, o RunOpt) RunInfo {
 			sc.Ops = append(sc.Ops, c19Op{Op: "query", N: n})
 		}
 	}
+	if sc.Huge {
+		for i := range sc.Ops {
+			if sc.Ops[i].Op == "wait" {
+				sc.Ops[i] = c19Op{Op: "query", N: i * 3}
+			}
+		}
+	}
 	// keep the total simulated time well within what time.Time and
 	// time.Duration can hold (the statement's "every cap" is sampled up to
 	// 2^36 ms = 2.2 years; beyond 2^43 ms time.Duration itself overflows)
-	if sc.Cap > 1<<36 {
+	if !sc.Huge && sc.Cap > 1<<36 {
 		sc.Cap = 1 << 36
 	}
-	if nops > 40 && sc.Cap > 1<<30 {
+	if !sc.Huge && nops > 40 && sc.Cap > 1<<30 {
 		sc.Cap = 1 << 30
 	}
 	e.Horizon = 1 << 62
@@ -277,18 +296,18 @@ func runC19(e *Engine, g G, o RunOpt) RunInfo {
 					d = b.DurationForAttempt(op.N)
 				}
 				ref := refDelayMs(effBase, effFactor, effCap, n)
-				refD := time.Duration(ref.Int64()) * time.Millisecond
+				refD, refFits := msDuration(ref)
 				if ref.Cmp(big.NewInt(int64(effCap))) == 0 {
 					reachedCap = true
 				}
-				capD := time.Duration(effCap) * time.Millisecond
+				capD, _ := msDuration(big.NewInt(int64(effCap)))
 				e.Logf("backoff", "op#%d %s n=%d -> %v (reference %v)", i, op.Op, n, d, refD)
 				switch {
 				case d < 0:
 					e.Violate("C19", "negative-delay:"+op.Op, "attempt %d: delay %v is negative", n, d)
 				case d > capD:
 					e.Violate("C19", "above-cap:"+op.Op, "attempt %d: delay %v exceeds the cap %v", n, d, capD)
-				case sc.NoJitter && d != refD:
+				case sc.NoJitter && refFits && d != refD:
 					e.Violate("C19", "not-min-cap-exp:"+op.Op, "attempt %d without jitter: delay %v, min(cap, base*factor^n) = %v (base %d factor %d cap %d)", n, d, refD, effBase, effFactor, effCap)
 				case !sc.NoJitter && d > refD:
 					e.Violate("C19", "jitter-above-exp:"+op.Op, "attempt %d with jitter: delay %v above min(cap, base*factor^n) = %v", n, d, refD)
@@ -318,5 +337,15 @@ func runC19(e *Engine, g G, o RunOpt) RunInfo {
 		e.Probe("c19.exponent_overflow_range")
 	}
 	_ = fmt.Sprint
-	return RunInfo{Scenario: sc, Nontrivial: reachedCap || maxConsec >= 3}
+	return RunInfo{Scenario: sc, Nontrivial: reachedCap || maxConsec >= 3 || sc.Huge}
+}
+
+// msDuration converts a number of milliseconds to a time.Duration, saturating at the largest
+// one when it does not fit (fits = false).
+func msDuration(ms *big.Int) (time.Duration, bool) {
+	ns := new(big.Int).Mul(ms, big.NewInt(int64(time.Millisecond)))
+	if ns.IsInt64() {
+		return time.Duration(ns.Int64()), true
+	}
+	return time.Duration(1<<63 - 1), false
 }
